@@ -91,7 +91,10 @@ def run(ctx: Ctx) -> None:
     ok = False
     facts: dict = {"arm": arm.qualname if arm else None}
     if arm is not None:
-        loops = [n_ for n_ in ast.walk(arm.node) if isinstance(n_, ast.For) and ast.unparse(n_.iter).endswith(".fields")]
+        field_locals = {n_.targets[0].id for n_ in ast.walk(arm.node) if isinstance(n_, ast.Assign) and len(n_.targets) == 1 and isinstance(n_.targets[0], ast.Name)
+                        and ".fields" in ast.unparse(n_.value)}
+        loops = [n_ for n_ in ast.walk(arm.node) if isinstance(n_, ast.For)
+                 and (".fields" in ast.unparse(n_.iter) or any(isinstance(x, ast.Name) and x.id in field_locals for x in ast.walk(n_.iter)))]
         visits = any(isinstance(c, ast.Call) and isinstance(c.func, ast.Attribute) and c.func.attr == "visit" for lp in loops for c in ast.walk(lp))
         early = any(isinstance(x, (ast.Break, ast.Return)) for lp in loops for x in ast.walk(lp))
         rets = [r for r in ast.walk(arm.node) if isinstance(r, ast.Return)]
